@@ -103,7 +103,12 @@ class Recorder:
                 k = (id(a), name)
                 self.counts[k] = n = self.counts.get(k, 0) + 1
             if self.raising is not None and self.raising(a, name, n):
-                raise RuntimeError(f"scripted failure in {name} handler #{n}")
+                # with a message, without any argument, with a non-string argument
+                if n % 3 == 0:
+                    raise RuntimeError(f"scripted failure in {name} handler #{n}")
+                if n % 3 == 1:
+                    raise RuntimeError()
+                raise KeyError(n)
 
         return h
 
